@@ -387,6 +387,25 @@ func (r *storeRun) exec(st stepJ) repJ {
 		r.be = next
 
 		return repJ{R: "n", N: n1}
+	case "RelaySelf":
+		// Dump through gob and restore into the SAME cache, which is in use: every entry is replaced by a copy of itself.
+		var buf bytes.Buffer
+
+		n1, err := r.be.Dump(&buf)
+		if err != nil {
+			return repJ{R: "error:dump:" + err.Error()}
+		}
+
+		n2, err := r.be.Restore(&buf)
+		if err != nil {
+			return repJ{R: "error:restore:" + err.Error()}
+		}
+
+		if n1 != n2 {
+			return repJ{R: fmt.Sprintf("error:dump reported %d entries, restore %d", n1, n2)}
+		}
+
+		return repJ{R: "n", N: n1}
 	case "Cleanup":
 		before := r.stat.Total(cache.MetricEvict, "store")
 		r.needed = op.Skip
@@ -408,7 +427,7 @@ func (r *storeRun) classify(st stepJ, what string) string {
 		return r.cfg.CleanupProp
 	}
 
-	if st.Op.Name == "Relay" {
+	if st.Op.Name == "Relay" || st.Op.Name == "RelaySelf" {
 		return "C13" // dump / restore fidelity, whatever family the behaviour belongs to
 	}
 
